@@ -180,6 +180,10 @@ pub fn c11_probe(c: &Chain, o: &HubObs, alphabet: &[Action], cx: &mut Cx) {
             continue;
         }
         // lock-step product: every action gives the same result and the same successor in both worlds
+        // (run for one of the two unpause variants; the other one was just shown to be the same state)
+        if how == "None" {
+            continue;
+        }
         for a in alphabet {
             let mut x = c_funded.clone();
             let mut y = u.clone();
